@@ -10,7 +10,9 @@
 
      H_root   forall fo t rest, root_ok fo t -> read_root (ser_root fo t ++ rest) = Some (norm fo t, rest)
               the root serializer / element reader round trip.  This is property C02 (C03 for the
-              pretty serializers, where `norm` is whitespace normalisation).
+              pretty serializers, where `norm` is whitespace normalisation).  For the plain serializer it
+              is PROVED from C02's theorem (C12_root_plain) and C12_roundtrip_plain / _str_plain do not
+              have it as a hypothesis any more.
      H_codec  forall enc body b, supported enc = true ->
               encode enc (decl_of enc ++ body) = Some b -> decode b = Some (decl_of enc ++ body)
               Python's codec and the reader's decoder (libxml2: BOM / declaration sniffing) are mutually
